@@ -41,11 +41,19 @@ def run_one(tmp, h, idx):
     env = dict(os.environ, CARGO_NET_OFFLINE="true", CARGO_TARGET_DIR=os.path.join(CACHE, h["package"]))
     t0 = time.time()
     cmd = ["cargo", "kani", "-p", h["package"], "--harness", h["name"]]
+    # two checks (e.g. C11 and C12, thorough tier) may ask for harnesses of the same package at the same time: they share that
+    # package's cached target directory, so they take turns
+    import fcntl
+    os.makedirs(CACHE, exist_ok=True)
+    lock = open(os.path.join(CACHE, h["package"] + ".lock"), "w")
+    fcntl.flock(lock, fcntl.LOCK_EX)
     try:
         r = subprocess.run(cmd, cwd=tmp, env=env, capture_output=True, text=True, timeout=h.get("timeout_s", 1800))
         out = r.stdout + r.stderr
     except subprocess.TimeoutExpired as e:
         return dict(h, status="undecided", reason=f"timeout after {h.get('timeout_s', 1800)} s", seconds=round(time.time() - t0, 1))
+    finally:
+        fcntl.flock(lock, fcntl.LOCK_UN); lock.close()
     secs = round(time.time() - t0, 1)
     if "VERIFICATION:- SUCCESSFUL" in out:
         m = re.search(r"\*\* 0 of (\d+) failed", out)
